@@ -200,8 +200,26 @@ fn analyze_used_function_names_and_type_names(
 pub(super) fn optimize_lir_sources_by_eliminating_unused_ones(
   Sources { symbol_table, global_variables, type_definitions, main_function_names, functions }: Sources,
 ) -> Sources {
-  let (used_str_names, used_fn_names, used_types) =
+  let (used_str_names, used_fn_names, mut used_types) =
     analyze_used_function_names_and_type_names(&functions, &main_function_names);
+  // A used type definition keeps alive the types of its fields and its parent type,
+  // even when no function mentions them (e.g. the payload type of a variant never built).
+  let type_def_map: HashMap<_, _> = type_definitions.iter().map(|d| (d.name, d)).collect();
+  let mut worklist = used_types.iter().copied().collect_vec();
+  while let Some(type_name) = worklist.pop() {
+    if let Some(d) = type_def_map.get(&type_name) {
+      let mut mentioned = HashSet::new();
+      for t in &d.mappings {
+        collect_for_type_set(t, &mut mentioned);
+      }
+      mentioned.extend(d.parent_type);
+      for t in mentioned {
+        if used_types.insert(t) {
+          worklist.push(t);
+        }
+      }
+    }
+  }
   Sources {
     symbol_table,
     global_variables: global_variables
